@@ -1,1 +1,268 @@
-"""placeholder"""
+"""C15 - passwords embedded in URIs never leave the filter in clear text: taint (E8), sanitising-walk totality, regex classes (E11)."""
+
+from __future__ import annotations
+
+import ast
+import re
+
+from . import rule
+from ..model import Unresolved, walk_scope, parent, enclosing_function, enclosing_class, qualname
+from ..paths import U
+from ..taint import TaintEngine, SRC
+from .. import q
+
+F = 'openfilter/filter_runtime/filter.py'
+UTL = 'openfilter/filter_runtime/utils.py'
+RUN_METHODS = ('init', 'setup', 'process', 'process_frames', 'loop_once', 'shutdown', 'fini')
+OUT_OF_SCOPE = {
+    'openfilter/filter_runtime/zeromq.py': 'strings that reach it are tcp:// / ipc:// endpoints validated by Filter.init; a user:pw@ form is not a connectable ZeroMQ endpoint',
+    'openfilter/filter_runtime/mq.py': 'same as zeromq.py',
+    'openfilter/filter_runtime/dlcache.py': 'jfrog:// artefacts authenticate by token from the environment; its log lines follow a network round-trip',
+}
+
+
+def in_scope(relpath: str) -> bool:
+    return relpath == F or relpath.startswith('openfilter/filter_runtime/filters/') or relpath == 'openfilter/observability/lineage.py'
+
+
+def engine(repo) -> TaintEngine:
+    e = getattr(repo, '_taint', None)
+    if e is None:
+        e = TaintEngine(repo, set())
+        e.run()
+        repo._taint = e
+    return e
+
+
+@rule('C15.R1', 'no unsanitised flow from a configuration URI to a log line, to frame metadata sent downstream, to lineage facets, or to the message of an exception the framework logs')
+def r1(rr, repo):
+    eng = engine(repo)
+    rr.note(f'taint fixpoint reached after {eng.rounds} rounds over {len(eng.fns)} functions; URI fields: {sorted(eng.uri_fields)}; '
+            f'{len(eng.declared_fields)} declared config fields; tainted helper attributes: {sorted(f"{k[0].split("::")[1]}.{k[1]}" for k, v in eng.attr.items() if v)}')
+    seen = {}
+    n_sinks = 0
+    clean_sinks = 0
+    for key, s in eng.summ.items():
+        fi = eng.fns[key]
+        if not in_scope(fi.mod.relpath):
+            continue
+        for (node, mod, kind, labels, text) in s.sinks:
+            if not in_scope(mod.relpath):
+                continue
+            if SRC in labels:
+                seen.setdefault((id(node), kind), (node, mod, kind, text, key))
+    # raise messages that escape a method Filter.run invokes under `except Exception as exc: logger.error(exc)`
+    for key, s in eng.summ.items():
+        fi = eng.fns[key]
+        if fi.cls is None or fi.node.name not in RUN_METHODS:
+            continue
+        ck = f'{fi.mod.relpath}::{qualname(fi.cls)}'
+        if ck not in eng.filter_classes or not in_scope(fi.mod.relpath):
+            continue
+        for (node, mod, labels) in s.raises:
+            if SRC in labels and in_scope(mod.relpath):
+                seen.setdefault((id(node), 'raise'), (node, mod, 'logged-exception', U(node)[:160], key))
+    # count all sinks examined (tainted or not) for the floor / positive instances
+    for mod in repo.modules.values():
+        if not in_scope(mod.relpath):
+            continue
+        for c in q.calls_in(mod.tree):
+            f = c.func
+            if isinstance(f, ast.Attribute) and f.attr in ('debug', 'info', 'warning', 'error', 'critical', 'exception') and U(f.value) in ('logger', 'logging'):
+                n_sinks += 1
+            elif isinstance(f, ast.Name) and f.id == 'Frame':
+                n_sinks += 1
+    for (nid, kind), (node, mod, k, text, via) in sorted(seen.items(), key=lambda kv: (kv[1][1].relpath, kv[1][0].lineno)):
+        what = {'log': 'a configuration URI reaches a log call unsanitised', 'frame-meta': 'a configuration URI reaches frame metadata sent downstream unsanitised',
+                'lineage': 'the configuration reaches lineage facets unsanitised', 'logged-exception': 'a configuration URI is formatted into an exception message that Filter.run logs'}[k]
+        rr.violated(what, mod, node, witness=f'{k}: {text}', key=f'{k}|{re.sub(r"\s+", " ", text)[:100]}')
+    rr.floor('log / Frame sinks in scope', n_sinks, 60)
+    # positive instances: places where the sanitizer does its job
+    pos = 0
+    for mod in repo.modules.values():
+        if in_scope(mod.relpath):
+            pos += sum(1 for c in q.calls_in(mod.tree) if isinstance(c.func, ast.Name) and c.func.id in ('hide_uri_users_and_pwds', 'hide_uri_pwds'))
+    rr.floor('sanitizer applications in scope', pos, 4)
+    if not seen:
+        rr.holds('no tainted value reaches a sink in scope', key='none')
+    rr.samples = [{'sink': f'{m.relpath}:{n.lineno}', 'kind': k, 'text': t[:100]} for (n, m, k, t, via) in list(seen.values())[:3]]
+
+
+def dict_subclasses_in_configs(repo):
+    """dict and every dict subclass of the package (configs may hold any of them), plus list and tuple"""
+    out = []
+    for key in repo.classes():
+        if 'builtin:dict' in repo.mro_names(('repo', key)):
+            out.append(key)
+    return out
+
+
+@rule('C15.R2', 'the sanitising walk is total: the recursive function that masks the configuration before it is logged recurses into list, tuple and every dict subclass a configuration can hold')
+def r2(rr, repo):
+    mod, ctor = repo.find(f'{F}::Filter.__init__')
+    walkers = []   # (name, node, module, host function for class resolution)
+    san = lambda node: any(isinstance(c, ast.Call) and isinstance(c.func, ast.Name) and c.func.id in ('hide_uri_users_and_pwds', 'hide_uri_pwds') for c in ast.walk(node))
+    for n in ast.walk(ctor):
+        if isinstance(n, ast.NamedExpr) and isinstance(n.value, ast.Lambda) and san(n.value):
+            walkers.append((n.target.id, n.value, mod, ctor))
+    for m2 in (mod, repo.module(UTL)):
+        for n in m2.tree.body:
+            if isinstance(n, ast.FunctionDef) and san(n) and any(isinstance(c, ast.Call) and isinstance(c.func, ast.Name) and c.func.id == n.name for c in ast.walk(n)):
+                walkers.append((n.name, n, m2, n))
+    rr.floor('sanitising walkers in filter.py', len(walkers), 1, mod, ctor)
+    kinds = [('builtin', 'str'), ('builtin', 'list'), ('builtin', 'tuple'), ('builtin', 'dict')] + [('repo', k) for k in dict_subclasses_in_configs(repo)]
+    for name, w, wmod, host in walkers:
+        param = w.args.args[0].arg
+        body = w.body if isinstance(w, ast.Lambda) else None
+        if body is None:
+            rets = [s_ for s_ in ast.walk(w) if isinstance(s_, ast.Return)]
+            rebinds = [s_ for s_ in ast.walk(w) if isinstance(s_, ast.Name) and isinstance(s_.ctx, ast.Store) and s_.id == param]
+            if len(rets) == 1 and rets[0] is w.body[-1] and rets[0].value is not None and not rebinds:
+                body = rets[0].value
+            else:
+                rr.unresolved('walker written with statements: only the single conditional-expression form is evaluated', wmod, w, key=f'walker-form|{name}')
+                continue
+        # flatten the conditional chain: [(test, value)], final else
+        chain = []
+        cur = body
+        while isinstance(cur, ast.IfExp):
+            chain.append((cur.test, cur.body))
+            cur = cur.orelse
+        chain.append((None, cur))
+        for kref in kinds:
+            kname = kref[1].split('::')[-1]
+            chosen = None
+            for test, val in chain:
+                if test is None:
+                    chosen = val
+                    break
+                t, pol = q.strip_not(test)
+                if not (isinstance(t, ast.Call) and isinstance(t.func, ast.Name) and t.func.id == 'isinstance' and U(t.args[0]) == param):
+                    rr.unresolved('walker branch test is not isinstance(param, ...)', wmod, test, key=f'walker-test|{name}')
+                    chosen = 'unknown'
+                    break
+                types = t.args[1].elts if isinstance(t.args[1], ast.Tuple) else [t.args[1]]
+                is_inst = False
+                for ty in types:
+                    ref = repo.resolve_class(wmod, ty, scope=host)
+                    sub = repo.is_subclass(kref, ref)
+                    if sub:
+                        is_inst = True
+                if is_inst == pol:
+                    chosen = val
+                    break
+            if chosen == 'unknown' or chosen is None:
+                continue
+            txt = U(chosen)
+            if kname == 'str':
+                ok = any(isinstance(c, ast.Call) and isinstance(c.func, ast.Name) and c.func.id in ('hide_uri_users_and_pwds', 'hide_uri_pwds') for c in ast.walk(chosen))
+                rr.ob('a string leaf is passed through the sanitizer', ok, wmod, w, witness=txt[:100], key=f'walk|{name}|str')
+            else:
+                recurses = any(isinstance(c, ast.Call) and isinstance(c.func, ast.Name) and c.func.id == name for c in ast.walk(chosen))
+                rr.ob(f'a {kname} inside the configuration is walked (the walker recurses into it) rather than returned as is', recurses, wmod, w,
+                      witness=f'{kname} -> {txt[:80]}', key=f'walk|{name}|{kname}')
+        # the log call uses the walker's result
+        if host is ctor:
+            logs = [c for c in q.calls_in(ctor) if isinstance(c.func, ast.Attribute) and c.func.attr == 'info' and any(isinstance(x, ast.NamedExpr) and x.value is w for x in ast.walk(c))]
+            rr.ob('the start-up log line prints the walked (masked) configuration', bool(logs), mod, ctor, key='walk-used')
+
+
+def _class_items(parsed):
+    """[(negate, set of literal chars / category names)] for the items of a regex AST"""
+    import re._parser as sp
+    return parsed
+
+
+@rule('C15.R3', 'the masks cover the documented alphabet: the password sub-pattern excludes nothing but "@", the user class only ":" and "@", the scheme is the RFC scheme class, and the replacement keeps only the scheme and the host part')
+def r3(rr, repo):
+    import re._parser as sp
+    import re._constants as sc
+    mod = repo.module(UTL)
+    pats = {}
+    for st in mod.tree.body:
+        if isinstance(st, ast.Assign) and isinstance(st.value, ast.Call) and U(st.value.func) == 're.compile' and st.value.args and isinstance(st.value.args[0], ast.Constant) \
+                and isinstance(st.targets[0], ast.Name) and 'uri' in st.targets[0].id and 'pwd' in st.targets[0].id:
+            flags = re.VERBOSE if any('VERBOSE' in U(a) for a in st.value.args[1:]) or any('VERBOSE' in U(k.value) for k in st.value.keywords) else 0
+            pats[st.targets[0].id] = (st.value.args[0].value, flags, st)
+    rr.floor('credential-masking regexes in utils.py', len(pats), 2, mod, mod.tree)
+    subs = {}
+    for fn in mod.tree.body:
+        if isinstance(fn, ast.FunctionDef) and fn.name in ('hide_uri_users_and_pwds', 'hide_uri_pwds'):
+            for c in q.calls_in(fn):
+                if isinstance(c.func, ast.Attribute) and c.func.attr == 'sub' and isinstance(c.func.value, ast.Name):
+                    subs[fn.name] = (c.func.value.id, c.args[0].value if c.args and isinstance(c.args[0], ast.Constant) else None, c)
+    rr.floor('sanitizer functions', len(subs), 2, mod, mod.tree)
+    for fname, (pname, repl, call) in subs.items():
+        if pname not in pats:
+            rr.unresolved(f'{fname} uses a pattern that is not a module-level literal', mod, call, key=f'pattern|{fname}')
+            continue
+        pattern, flags, st = pats[pname]
+        try:
+            parsed = sp.parse(pattern, flags)
+        except Exception as exc:
+            rr.unresolved(f'pattern does not parse: {exc}', mod, st, key=f'parse|{fname}')
+            continue
+        items = list(parsed)
+        groups = [i for i, (op, av) in enumerate(items) if op is sc.SUBPATTERN]
+        rr.ob(f'{fname}: the pattern has exactly two capture groups (kept head and kept tail, the mask goes in between)', len(groups) == 2, mod, st, key=f'groups|{fname}')
+        if len(groups) != 2:
+            continue
+        # flatten into tokens tagged with the region they are in: 'g1', 'mask' (between the groups), 'g2'
+        toks = []
+        for i, (op, av) in enumerate(items):
+            if i == groups[0]:
+                toks += [(o, a, 'g1') for o, a in av[3]]
+            elif i == groups[1]:
+                toks += [(o, a, 'g2') for o, a in av[3]]
+            elif groups[0] < i < groups[1]:
+                toks.append((op, av, 'mask'))
+            elif op is not sc.AT:
+                toks.append((op, av, 'outside'))
+
+        def neg_class(av):
+            """-> set of excluded literal chars if the repeated item is a negated class of literals, else None"""
+            lo, hi, sub = av
+            sub = list(sub)
+            if len(sub) == 1 and sub[0][0] is sc.NOT_LITERAL:
+                return {chr(sub[0][1])}
+            if len(sub) != 1 or sub[0][0] is not sc.IN:
+                return None
+            inner = list(sub[0][1])
+            if not inner or inner[0][0] is not sc.NEGATE:
+                return None
+            chars = set()
+            for op, v in inner[1:]:
+                if op is sc.LITERAL:
+                    chars.add(chr(v))
+                else:
+                    return None
+            return chars
+        # expected token sequence: IN(alpha) REPEAT(IN scheme chars) ':' '/' '/' REPEAT(user) ':' REPEAT(password) '@' REPEAT(host)
+        kinds = [('rep' if o in (sc.MAX_REPEAT, sc.MIN_REPEAT) else 'lit:' + chr(a) if o is sc.LITERAL else 'in' if o is sc.IN else str(o)) for o, a, r in toks]
+        want = ['in', 'rep', 'lit::', 'lit:/', 'lit:/', 'rep', 'lit::', 'rep', 'lit:@', 'rep']
+        if kinds != want:
+            rr.unresolved(f'{fname}: pattern structure not recognised: {kinds}', mod, st, key=f'structure|{fname}')
+            continue
+        scheme_rep, user_rep, pw_rep = toks[1], toks[5], toks[7]
+        pw_excl = neg_class(pw_rep[1])
+        rr.ob(f'{fname}: the password sub-pattern is a negated class that excludes nothing but "@" (so ! : / ? # inside a password are consumed)', pw_excl == {'@'}, mod, st,
+              witness=f'excluded: {sorted(pw_excl) if pw_excl is not None else "not a negated literal class"}', key=f'pwd-class|{fname}')
+        rr.ob(f'{fname}: the password lies in the masked region (between the two kept groups)', pw_rep[2] == 'mask', mod, st, key=f'pwd-masked|{fname}')
+        u_excl = neg_class(user_rep[1])
+        rr.ob(f'{fname}: the user sub-pattern excludes only ":" and "@"', u_excl == {':', '@'}, mod, st, witness=str(sorted(u_excl) if u_excl is not None else None), key=f'user-class|{fname}')
+        if 'users' in fname:
+            rr.ob(f'{fname}: the user name lies in the masked region too', user_rep[2] == 'mask', mod, st, key=f'user-masked|{fname}')
+        ok_scheme = toks[0][2] == 'g1' and all(t[2] == 'g1' for t in toks[:5])
+        if ok_scheme:
+            sub = list(scheme_rep[1][2])
+            ok_scheme = len(sub) == 1 and sub[0][0] is sc.IN
+            if ok_scheme:
+                cls = list(sub[0][1])
+                lits_ = {chr(v) for op, v in cls if op is sc.LITERAL}
+                ranges = {(chr(a), chr(b)) for op, v in cls if op is sc.RANGE for a, b in [v]}
+                first = {(chr(a), chr(b)) for op, v in list(toks[0][1]) if op is sc.RANGE for a, b in [v]}
+                ok_scheme = {'+', '-', '.'} <= lits_ and {('a', 'z'), ('A', 'Z'), ('0', '9')} <= ranges and {('a', 'z'), ('A', 'Z')} <= first
+        rr.ob(f'{fname}: the scheme is the RFC 3986 scheme class followed by :// and is kept', ok_scheme, mod, st, key=f'scheme|{fname}')
+        rr.ob(f'{fname}: the kept tail starts at the "@"', toks[8][2] == 'g2', mod, st, key=f'tail|{fname}')
+        # replacement keeps groups 1 and 2 only, mask in between
+        rr.ob(f'{fname}: the replacement is <group 1><mask><group 2>', repl is not None and re.fullmatch(r'\\g<1>\*+\\g<2>', repl) is not None, mod, call, witness=str(repl), key=f'repl|{fname}')
